@@ -172,3 +172,13 @@ def timed_chunk(args):
     t0 = time.process_time()
     o = run_chunk(args)
     return (args[0], args[1], time.process_time() - t0, len(o["traces"]))
+
+
+def replay_one(args):
+    """re-execute one recorded input on the current tree (./check C17 --replay)"""
+    isa_name, mode, hx = args
+    D.watchdog_init()
+    D.mute_stdout()
+    drv = Driver(isa_name, mode)
+    b = bytes.fromhex(hx)
+    return {"kind": "c17", "m": "%s/%s" % (isa_name, mode), "src": "replay", "in": list(b), "ev": drv.life(b, True)}
